@@ -326,16 +326,18 @@ theorem reset_unfold {H : Hist} {B S : Nat} {n n' : Node} {t : Nat} {bs : List B
   · rename_i hle
     split at h
     · simp at h; exact absurd h.1 hbs
-    · simp only at h
-      split at h
+    · split at h
       · simp at h
-      · rename_i bs' D rdy hrf
+      · simp only at h
         split at h
         · simp at h
-        · rename_i n'' hnar
-          simp at h
-          obtain ⟨rfl, rfl⟩ := h
-          exact ⟨bs', D, rdy, rfl, hrf, hnar, by omega⟩
+        · rename_i bs' D rdy hrf
+          split at h
+          · simp at h
+          · rename_i n'' hnar
+            simp at h
+            obtain ⟨rfl, rfl⟩ := h
+            exact ⟨bs', D, rdy, rfl, hrf, hnar, by omega⟩
 
 theorem nodeAfterReset_db {B t : Nat} {D : Db} {rdy : Bool} {n' : Node} (h : nodeAfterReset B t D rdy = .ok n') : n'.db = D := by
   unfold nodeAfterReset at h
